@@ -352,7 +352,9 @@ impl<'a> Gen<'a> {
     pub fn doc(&mut self) -> Doc {
         let mut blocks = vec![];
         if self.rng.chance(1, 25) {
-            return Doc { front: None, blocks, trailing_newline: false };
+            // empty note, sometimes with nothing but front matter
+            let front = if self.rng.chance(1, 3) { Some(format!("title: {}", self.word())) } else { None };
+            return Doc { front, blocks, trailing_newline: self.rng.chance(1, 2) };
         }
         if self.rng.chance(4, 5) {
             blocks.push(Block::Heading { level: *self.rng.pick(&[1u8, 1, 1, 2, 3]), inl: self.inlines(5), setext: self.rng.chance(1, 12) });
